@@ -187,27 +187,20 @@ impl Report {
         *self.dist.entry(key.to_string()).or_insert(0) += n;
     }
     pub fn fail(&mut self, f: Failure) {
-        if self.failures.iter().any(|g| g.kind == f.kind && g.name == f.name && g.signature == f.signature && g.case == f.case) {
-            *self.fail_counts.entry(format!("{}:{}:{}", f.kind, f.name, f.signature)).or_insert(0) += 1;
+        *self.fail_counts.entry(format!("{}:{}:{}", f.kind, f.name, f.signature)).or_insert(0) += 1;
+        self.store(f);
+    }
+    /// keeps up to three distinct examples per signature, preferring short cases
+    fn store(&mut self, f: Failure) {
+        let same = |g: &Failure| g.kind == f.kind && g.name == f.name && g.signature == f.signature;
+        if self.failures.iter().any(|g| same(g) && g.case == f.case) {
             return;
         }
-        let key = format!("{}:{}:{}", f.kind, f.name, f.signature);
-        let c = self.fail_counts.entry(key).or_insert(0);
-        *c += 1;
-        // keep the first three examples per signature (the smallest case among them is preferred)
-        if *c <= 3 {
+        if self.failures.iter().filter(|g| same(g)).count() < 3 {
             self.failures.push(f);
-        } else {
-            // replace a stored example with a shorter one
-            if let Some(slot) = self
-                .failures
-                .iter_mut()
-                .filter(|g| g.kind == f.kind && g.name == f.name && g.signature == f.signature)
-                .max_by_key(|g| g.case.len())
-            {
-                if f.case.len() < slot.case.len() {
-                    *slot = f;
-                }
+        } else if let Some(slot) = self.failures.iter_mut().filter(|g| same(g)).max_by_key(|g| g.case.len()) {
+            if f.case.len() < slot.case.len() {
+                *slot = f;
             }
         }
     }
@@ -230,6 +223,26 @@ impl Report {
             impl_observed: imp.into(),
             model_observed: model.into(),
         });
+    }
+    /// fold another (worker) report into this one
+    pub fn merge(&mut self, o: Report) {
+        self.evaluations += o.evaluations;
+        self.distinct.extend(o.distinct);
+        for s in o.samples {
+            if self.samples.len() < 16 {
+                self.samples.push(s);
+            }
+        }
+        for (k, v) in o.dist {
+            *self.dist.entry(k).or_insert(0) += v;
+        }
+        for f in o.failures {
+            self.store(f);
+        }
+        for (k, v) in o.fail_counts {
+            *self.fail_counts.entry(k).or_insert(0) += v;
+        }
+        self.notes.extend(o.notes);
     }
     pub fn distinct_nontrivial(&self) -> u64 {
         self.distinct.len() as u64
@@ -261,6 +274,34 @@ impl Report {
             "wall_s": wall_s,
         })
     }
+}
+
+/// Runs `jobs` on `workers` threads; every job gets its own report, merged in job order.
+pub fn parallel<J: Send>(jobs: Vec<J>, workers: usize, property: &str, f: impl Fn(J, &mut Report) + Sync, rep: &mut Report) {
+    let n = jobs.len();
+    let queue = std::sync::Mutex::new(jobs.into_iter().enumerate().collect::<Vec<_>>());
+    let results = std::sync::Mutex::new(Vec::<(usize, Report)>::new());
+    std::thread::scope(|s| {
+        for _ in 0..workers.max(1) {
+            s.spawn(|| loop {
+                let job = { queue.lock().unwrap().pop() };
+                let Some((idx, job)) = job else { break };
+                let mut r = Report::new(property, "");
+                f(job, &mut r);
+                results.lock().unwrap().push((idx, r));
+            });
+        }
+    });
+    let mut rs = results.into_inner().unwrap();
+    assert_eq!(rs.len(), n);
+    rs.sort_by_key(|(i, _)| *i);
+    for (_, r) in rs {
+        rep.merge(r);
+    }
+}
+
+pub fn n_workers() -> usize {
+    std::thread::available_parallelism().map(|n| n.get()).unwrap_or(4).min(16)
 }
 
 /// Run `f`, turning a panic into `Err(message)`.
